@@ -16,7 +16,7 @@ from .c04 import BETA_MAX, BETA_MIN
 
 PROPERTY_ID = "C11"
 LEVEL = "exploration"
-SHARDS = {"quick": 8, "thorough": 16}
+SHARDS = {"quick": 12, "thorough": 16}
 RULE = (
     "For each vectorised stage (diffuse geometry throw + accessors + positions, target geometry, spectrum, tau energy, "
     "exit probability, whole Taus module, decay altitude, optical signal incl. the kernel, radio field + SNR) Hypothesis "
@@ -611,6 +611,46 @@ def body_stage(case):
     return labels
 
 
+# ---- every pre-emption point of one representative call per stage ------------------------------------------
+
+SWEEP_CASE = {
+    "cfg": {"alt": 525.0, "limb_frac": 0.5, "lat": 0.1, "lon": 0.2, "thmax": 0.05, "dphi": 6.283185307179586},
+    "rows4": [[0.1, 0.2, 0.3, 0.4], [0.5, 0.6, 0.7, 0.8], [0.9, 0.15, 0.25, 0.35]],
+    "rows3": [[9.2, 0.1, 0.3], [8.5, 0.3, 0.6], [10.1, 0.05, 0.9]],
+    "version": "3", "det": 525.0, "spectrum": {"id": "powerspectrum", "index": 2.0, "lower_bound": 7.0, "upper_bound": 11.0}, "c": 0.37, "fracs": [0.1, 0.5, 0.7],
+}
+
+
+def _sweep_cases(tier):
+    for name, stage in STAGES.items():
+        if name == "geometry.target":
+            continue  # (needs a generated target configuration; its per-call state lives on the object by design)
+        for mode in (["one", "two"] if stage.reentrant else ["two"]):
+            top = 640
+            for k0 in range(0, top, 80):
+                # (quick tier: every second point for the expensive optical stage, the parity follows VERIF_SEED)
+                stride = 2 if (tier == "quick" and name == "eas.__call__") else 1
+                yield {"stage": name, "mode": mode, "k0": k0, "k1": k0 + 80, "stride": stride, "phase": int(__import__("os").environ.get("VERIF_SEED", "1") or "1") % stride}
+
+
+def body_sweep(case):
+    """Two overlapping calls of a stage (one object where the stage is a function of its arguments, two objects of one
+    configuration otherwise) for EVERY pre-emption point of the chunk: finds windows one source line wide."""
+    from ..interleave import sweep_overlapping
+
+    stage = STAGES[case["stage"]]
+    base_case = dict(SWEEP_CASE)
+    n = 1 if stage.name == "eas.__call__" else 3
+    arrays = stage.inputs(base_case, n)
+    with cut(f"{stage.name}: construct"):
+        a = stage.make(base_case)
+        b = a if case["mode"] == "one" else stage.make(base_case)
+    mine, theirs = tuple(np.array(x) for x in arrays), tuple(np.array(x[::-1]) for x in arrays)
+    c = base_case["c"]
+    hits = sweep_overlapping(lambda: stage.call(a, mine, c), lambda: stage.call(b, theirs, c), case["k0"] + case.get("phase", 0), case["k1"], f"{stage.name} ({n} events, {'one object' if case['mode'] == 'one' else 'two objects of one configuration'})", stride=case.get("stride", 1))
+    return {stage.name, case["mode"]} | ({"preempted"} if hits else set())
+
+
 # ---- options that must not influence results: plotting and storing -------------------------------------
 
 PLOTS = {
@@ -750,6 +790,15 @@ CHEAP = ["geometry.throw", "taus.tau_energy", "taus.tau_exit_prob", "taus.__call
 
 SUBCHECKS = [
     SubCheck(
+        "interleave_sweep",
+        None,
+        body_sweep,
+        lambda labels: "preempted" in labels,
+        {"quick": 1},
+        doc="two overlapping calls of every stage (one object for the re-entrant stages, two objects of one configuration for all) at EVERY pre-emption point of one representative call (0..639 package lines), enumerated in chunks dealt to the worker processes",
+        exhaustive=_sweep_cases,
+    ),
+    SubCheck(
         "cheap_stages",
         stage_case(CHEAP, [1, 2, 3, 17, 100, 100, 1000]),
         body_stage,
@@ -780,7 +829,7 @@ SUBCHECKS = [
         stage_case(["eas.__call__"], [1, 2, 5, 12, 24]),
         body_stage,
         lambda labels: "non_identity_permutation" in labels and "interior_split" in labels,
-        {"quick": 36, "thorough": 1000},
+        {"quick": 24, "thorough": 1000},
         doc="EAS.__call__ incl. the Cherenkov kernel: permutation, split, repeated calls, inputs untouched",
         shrink=False,
     ),
